@@ -20,7 +20,7 @@ LIST_OPS = ['append', 'insert', 'extend', 'pop', 'remove', 'delitem', 'delslice'
 DICT_OPS = ['dsetitem', 'dsetattr', 'ddelitem', 'ddelattr', 'dpop', 'popitem',
             'update', 'setdefault', 'dclear', 'ior', 'rebind_d']
 OBJ_OPS = ['osetattr', 'rebind_o']
-ANY_OPS = ['rebind_path', 'rebind_fn', 'clone', 'json', 'deepcopy', 'copy']
+ANY_OPS = ['rebind_path', 'rebind_multi', 'rebind_fn', 'clone', 'json', 'deepcopy', 'copy']
 ALL_OPS = LIST_OPS + DICT_OPS + OBJ_OPS + ANY_OPS
 STRUCTURAL = set(ALL_OPS) - {'clone', 'json', 'deepcopy', 'copy'}
 INPLACE_OPS = {'iadd', 'imul', 'ior'}
@@ -42,6 +42,8 @@ def op_strategy(ops=None, value=None, max_target=40):
       'sv': st.booleans(),
       'nf': st.sampled_from([False, False, False, True]),
       'm': st.integers(0, 5),
+      'locs': st.lists(st.fixed_dictionaries({
+          'i': st.integers(0, 30), 'm': st.integers(0, 5), 'v': value}), max_size=3),
   })
 
 
@@ -255,7 +257,18 @@ def apply_op(roots, op, allow_move=True):
         elif m == 4:
           n.rebind({idx: pg.MISSING_VALUE})
         else:
-          n.rebind({idx: val, abs(i) + 1: pg.Insertion(copy.deepcopy(values.build(_get(op, 'v'))))})
+          # a batch over this list mixing replacements, insertions and deletions
+          def item(mode, vv):
+            return vv if mode == 0 else (pg.Insertion(vv) if mode == 1 else pg.MISSING_VALUE)
+          upd = {abs(i) % (len(n) + 1): item(_int(op, 'k') % 3, val)}
+          for e in (_get(op, 'locs') or []):
+            if not isinstance(e, dict):
+              raise core.InvalidCase(op)
+            ei = _int(e, 'i') % (len(n) + 1)
+            if ei not in upd:
+              upd[ei] = item(_int(e, 'm') % 3,
+                             values.build(e.get('v'), symbolic=bool(_get(op, 'sv'))))
+          n.rebind(upd)
       elif name == 'dsetitem':
         n[key] = val
       elif name == 'dsetattr':
@@ -296,19 +309,43 @@ def apply_op(roots, op, allow_move=True):
       elif name == 'rebind_o':
         ks = [k for k, _ in n.sym_items()] or ['x']
         n.rebind(**{ks[i % len(ks)]: val})
-      elif name == 'rebind_path':
+      elif name in ('rebind_path', 'rebind_multi'):
         sub = preorder(n)
-        locs = []
+        locs, llocs = [], []
         for d in sub:
           for k, _ in d.sym_items():
-            locs.append(d.sym_path + k)
-        if locs:
-          loc = locs[i % len(locs)]
-          rel = loc - n.sym_path
-          n.rebind({str(rel): pg.MISSING_VALUE if m == 5 else val})
-        else:
+            loc = pg.KeyPath(k, d.sym_path)
+            locs.append((loc, d))
+            if isinstance(d, pg.List):
+              llocs.append((loc, d))
+        if not locs:
           out.status = 'skip'
           return out
+
+        def entry(ii, mm, vv):
+          pool = llocs if (llocs and mm % 2 == 0) else locs
+          loc, holder = pool[ii % len(pool)]
+          rel = loc - n.sym_path
+          if mm == 4:
+            vv = pg.MISSING_VALUE
+          elif mm in (2, 0) and isinstance(holder, pg.List):
+            vv = pg.Insertion(vv)
+          return rel, vv
+        if name == 'rebind_path':
+          rel, vv = entry(i, m, val)
+          n.rebind({rel: vv})
+        else:
+          upd = {}
+          rel, vv = entry(i, m, val)
+          upd[rel] = vv
+          for e in (_get(op, 'locs') or []):
+            if not isinstance(e, dict):
+              raise core.InvalidCase(op)
+            rel, vv = entry(_int(e, 'i'), _int(e, 'm'),
+                            values.build(e.get('v'), symbolic=bool(_get(op, 'sv'))))
+            if rel not in upd:
+              upd[rel] = vv
+          n.rebind(upd)
       elif name == 'rebind_fn':
         want = m - 2
 
